@@ -18,8 +18,8 @@ type c09Root struct {
 	G bool `short:"g"`
 }
 type c09Add struct {
-	Y   bool   `short:"y" required:"true"`
-	N   int    `short:"n"`
+	Y   bool `short:"y" required:"true"`
+	N   int  `short:"n"`
 	log *c09Log
 }
 type c09Sub struct {
@@ -49,7 +49,7 @@ func (l *c09Log) run(id string, a []string) error {
 func H_C09_exec(v *V) {
 	// the fault class is chosen first; configuration bits that cannot matter
 	// for a class are fixed instead of multiplied
-	fault := v.Choice(8)
+	fault := v.Choice(10)
 	log := &c09Log{}
 	if fault == 0 {
 		log.fail = v.Choice(2) == 1
@@ -152,6 +152,15 @@ func H_C09_exec(v *V) {
 	case 7: // unknown command
 		v.Assume(!refOptionSyntax(F) && F != "add" && F != "rm")
 		argv = []string{"-g", F}
+	case 8: // required subcommand missing; the only subcommand is hidden
+		ca.SubcommandsOptional = false
+		ca.Find("sub").Hidden = true
+		argv = []string{"add", "-y"}
+	case 9: // unknown subcommand; the only subcommand is hidden
+		ca.SubcommandsOptional = false
+		ca.Find("sub").Hidden = true
+		v.Assume(!refOptionSyntax(F) && F != "sub")
+		argv = []string{"add", "-y", F}
 	}
 	// a token inserted after `-n`/`-r` would become that option's argument
 	if fault == 1 || fault == 5 {
